@@ -3,7 +3,28 @@ import threading
 import types
 
 
+def _replay_received():
+    """a real (socket-less) Connection receiving a pushed EVENT frame: it must count as traffic"""
+    import io
+    from contracts.native.c10 import _conn
+    from cassandra import protocol
+    from cassandra.connection import _Frame
+    c = _conn()
+    c.msg_received = False
+    c.orphaned_request_ids, c.in_flight, c.request_ids, c.user_type_map, c.decompressor = set(), 0, [], {}, None
+    c._push_watchers = {}
+    body = io.BytesIO()
+    protocol.write_string(body, 'STATUS_CHANGE')
+    protocol.write_string(body, 'UP')
+    protocol.write_inet(body, ('10.0.0.9', 9042))
+    c.process_msg(_Frame(version=4, flags=0, stream=-1, opcode=0x0C, body_offset=9, end_pos=9 + len(body.getvalue())), body.getvalue())
+    bad = c.msg_received is not True
+    return {'reproduced': bad, 'detail': 'after a pushed STATUS_CHANGE event (stream -1) msg_received is %r, is_idle %r: the next heartbeat round treats the connection as silent' % (c.msg_received, c.is_idle)}
+
+
 def replay(model, obligation):
+    if 'msg_received' in obligation:
+        return _replay_received()
     from cassandra.connection import Connection, ConnectionHeartbeat, ConnectionException, ConnectionShutdown
     from cassandra.protocol import SupportedMessage, ReadyMessage
     kinds = ['idle-answers', 'idle-silent', 'idle-send-raises', 'idle-at-capacity', 'idle-connection-error', 'idle-unexpected-reply', 'busy', 'defunct', 'closed']
